@@ -560,3 +560,150 @@ def r13(ctx: RuleCtx) -> None:
                 'the reference replaces every character that is not an ASCII letter or digit by `_`', hf)
     ctx.require(rx.full_matches(pat, '__', flags) is False, 'str.underscorify replaces character by character', um, hname, f'underscorify pattern {pat!r} per character',
                 f'the pattern {pat!r} matches runs of characters: several characters would collapse into one `_`', hf)
+
+
+# ---------------------------------------------------------------------------
+# R14: array.contains() scans every element - a search loop leaves early only on success (K1 on the loop's exits)
+# R7 extension (called from c01_lit.r7): dict.values() is ordered by the sorted keys
+# ---------------------------------------------------------------------------
+
+def _registered(cls: ast.ClassDef, name: str) -> T.Optional[ast.FunctionDef]:
+    for st in cls.body:
+        if isinstance(st, ast.FunctionDef) and any(isinstance(d, ast.Call) and (attr_chain(d.func) or '').endswith('.method') and d.args and isinstance(d.args[0], ast.Constant)
+                                                   and d.args[0].value == name for d in st.decorator_list):
+            return st
+    return None
+
+
+def r14(ctx: RuleCtx) -> None:
+    from .c01_sym import sym_paths, is_call, show
+    mod = ctx.repo.module(ARRAY)
+    cls = mod.cls('ArrayHolder')
+    fm = _registered(cls, 'contains')
+    if fm is None:
+        raise Undecided('ArrayHolder registers no `contains` method')
+    funcs = [fm] + [n for n in ast.walk(fm) if isinstance(n, ast.FunctionDef) and n is not fm]
+    # the search may live in a module-level function or a sibling method the registered method hands the array to
+    meths_c = {s_.name: s_ for s_ in cls.body if isinstance(s_, ast.FunctionDef)}
+    for _ in range(2):
+        for f0 in list(funcs):
+            for c in ast.walk(f0):
+                if isinstance(c, ast.Call):
+                    tgt = None
+                    if isinstance(c.func, ast.Name) and mod.has_func(c.func.id):
+                        tgt = mod.func(c.func.id)
+                    elif isinstance(c.func, ast.Attribute) and isinstance(c.func.value, ast.Name) and c.func.value.id in ('self', 'cls') and c.func.attr in meths_c:
+                        tgt = meths_c[c.func.attr]
+                    if tgt is not None and tgt not in funcs:
+                        funcs.append(tgt)
+    loops = [(f, n) for f in funcs for n in ast.walk(f) if isinstance(n, (ast.For, ast.While)) and not any(n in ast.walk(g) for g in funcs if g is not f and g in ast.walk(f))]
+    if not loops:
+        # no loop: the scan must be an exhaustive any()/in over the array
+        rets = [n for f in funcs for n in ast.walk(f) if isinstance(n, ast.Return) and n.value is not None]
+        ok = bool(rets) and any(isinstance(c, ast.Call) and isinstance(c.func, ast.Name) and c.func.id == 'any' and c.args and isinstance(c.args[0], (ast.GeneratorExp, ast.ListComp))
+                                for r in rets for c in ast.walk(r.value))
+        if not ok:
+            raise Undecided('array.contains: neither a search loop nor any() over a generator')
+        ctx.ok('array.contains: the scan is an any() over all elements (no early exit to judge)')
+        return
+    n = 0
+    for f, loop in loops:
+        inside = {id(x) for x in ast.walk(loop) if isinstance(x, ast.Return)}
+        if not inside:
+            continue
+        qn = f'ArrayHolder.{fm.name}' if f is fm else (f'ArrayHolder.{fm.name}.{f.name}' if any(f is x for x in ast.walk(fm)) else f.name)
+        seen: T.Set[str] = set()
+        for sp in sym_paths(f, unroll=1, mod=mod):
+            if sp.outcome != 'return' or id(sp.last_node) not in inside:
+                continue
+            r = sp.result
+            desc = show(r)[:80]
+            if desc in seen:
+                continue
+            seen.add(desc)
+            n += 1
+            truth = [v for t, v in sp.conds() if t == r]
+            if r == ('const', True) or (truth and truth[-1] is True):
+                ctx.ok(f'{qn}: the scan loop is left early with {desc} only on success')
+            elif r[0] == 'const' or is_call(r) or r[0] in ('name', 'op'):
+                ctx.violation(mod, qn, f'array.contains: early exit from the scan loop with {desc}',
+                              f'the scan loop of array.contains() returns `{desc}` without having tested it: when it is false the remaining elements are never examined '
+                              '(contains() must be true if ANY element, also a later or nested one, equals the argument)', sp.last_node)
+            else:
+                raise Undecided(f'{qn}: early exit with a value of unknown shape: {desc}')
+    ctx.floor('early exits of the array.contains scan loop judged', n, 1)
+
+
+def dict_values_order(ctx: RuleCtx) -> None:
+    """dict.values(): the order of the returned values derives from the sorted keys (docs/yaml/elementary/dict.yml)."""
+    mod = ctx.repo.module(PRIM + 'dict.py')
+    cls = mod.cls('DictHolder')
+    fm = _registered(cls, 'values')
+    if fm is None:
+        return          # C01.R8 reports a missing documented method
+    meths = {s.name: s for s in cls.body if isinstance(s, ast.FunctionDef)}
+    held = 'self.held_object'
+
+    def source(e: ast.AST, fn: ast.FunctionDef, depth: int = 0) -> str:
+        """'sorted' | 'held' (insertion order) | raises Undecided"""
+        if isinstance(e, ast.Call):
+            f = attr_chain(e.func)
+            if f == 'sorted' and e.args and not e.keywords:
+                a = norm(e.args[0])
+                if a in (held, held + '.keys()', held + '.items()'):
+                    return 'sorted'
+                raise Undecided(f'dict.values: sorted() over {a}')
+            if f in ('list', 'tuple', 'iter', 'reversed') and len(e.args) == 1:
+                if f == 'reversed':
+                    raise Undecided('dict.values: reversed order')
+                return source(e.args[0], fn, depth)
+            if f and f.startswith('self.') and f[5:] in meths and not e.args and depth < 2:
+                kinds = {source(r.value, meths[f[5:]], depth + 1) for r in ast.walk(meths[f[5:]]) if isinstance(r, ast.Return) and r.value is not None}
+                if len(kinds) == 1:
+                    return next(iter(kinds))
+                raise Undecided(f'dict.values: helper {f} has several result shapes')
+            if norm(e) in (held + '.values()', held + '.items()', held + '.keys()'):
+                return 'held'
+            raise Undecided(f'dict.values: order source {norm(e)[:60]}')
+        if isinstance(e, (ast.ListComp, ast.GeneratorExp)) and len(e.generators) == 1 and not e.generators[0].ifs:
+            return source(e.generators[0].iter, fn, depth)
+        if isinstance(e, ast.Name):
+            defs = [s_ for s_ in ast.walk(fn) if isinstance(s_, ast.Assign) and len(s_.targets) == 1 and norm(s_.targets[0]) == e.id]
+            fills = [l for l in ast.walk(fn) if isinstance(l, ast.For) and any(isinstance(c, ast.Call) and isinstance(c.func, ast.Attribute) and c.func.attr == 'append'
+                                                                             and norm(c.func.value) == e.id for c in ast.walk(l))]
+            touched = [c.func.attr for c in ast.walk(fn) if isinstance(c, ast.Call) and isinstance(c.func, ast.Attribute) and norm(c.func.value) == e.id
+                       and c.func.attr not in ('append', 'index', 'count', 'copy')]
+            if touched:
+                # the local is reordered in place: a bare .sort() of the keys is the sorted order, anything else is not read
+                inner = source(defs[0].value, fn, depth) if len(defs) == 1 else None
+                if touched == ['sort'] and inner == 'held' and norm(defs[0].value) in (f'list({held})', f'list({held}.keys())') and \
+                        all(not c.args and not c.keywords for c in ast.walk(fn) if isinstance(c, ast.Call) and isinstance(c.func, ast.Attribute) and c.func.attr == 'sort'):
+                    return 'sorted'
+                raise Undecided(f'dict.values: {e.id} is modified in place by {touched}')
+            if len(defs) == 1 and not fills and not isinstance(defs[0].value, (ast.List, ast.Constant)):
+                return source(defs[0].value, fn, depth)
+            if len(fills) == 1 and len(defs) == 1 and isinstance(defs[0].value, ast.List) and not defs[0].value.elts:
+                return source(fills[0].iter, fn, depth)
+            raise Undecided(f'dict.values: cannot follow {e.id}')
+        if norm(e) == held:
+            return 'held'
+        raise Undecided(f'dict.values: order source {norm(e)[:60]}')
+    aliases = {s_.targets[0].id for s_ in ast.walk(fm) if isinstance(s_, ast.Assign) and len(s_.targets) == 1 and isinstance(s_.targets[0], ast.Name) and norm(s_.value) == held}
+    stores = [n.id for n in ast.walk(fm) if isinstance(n, ast.Name) and isinstance(n.ctx, ast.Store)]
+    aliases = {a for a in aliases if stores.count(a) == 1}
+    if aliases:
+        class _Alias(ast.NodeTransformer):
+            def visit_Name(self, n: ast.Name) -> ast.AST:
+                if isinstance(n.ctx, ast.Load) and n.id in aliases:
+                    return ast.copy_location(ast.parse(held, mode='eval').body, n)
+                return n
+        fm = _Alias().visit(copy.deepcopy(fm))
+        ast.fix_missing_locations(fm)
+    rets = [r for r in ast.walk(fm) if isinstance(r, ast.Return) and r.value is not None]
+    if not rets:
+        raise Undecided('dict.values never returns a value')
+    for r in rets:
+        k = source(r.value, fm)
+        ctx.require(k == 'sorted', 'dict.values() enumerates the values in the order of the sorted keys', mod, f'DictHolder.{fm.name}', f'dict.values order source: {k}',
+                    f'dict.values() returns `{short(r.value, 70)}`: the values come in insertion order of the held dictionary; the reference prescribes the order of the sorted keys '
+                    '(matching dict.keys())', r)
